@@ -516,3 +516,485 @@ func hasherFactoriesAreFresh(c *Ctx, rule string, pkgs []string) {
 		c.Ok(rule, "hasher-factories", 0, fmt.Sprintf("%d hasher-factory closure(s) in production code, each returning a new hasher", n))
 	}
 }
+
+// ---- a proposed command is well formed -----------------------------------------------------------------
+//
+// RaftNode.AddBulk proposes cmd.data. Either it tests command.encode's verdict, or encode cannot
+// refuse for reasons of its own (its only error is the msgpack encoder's, which cannot fail for a
+// list of digests). An encoder that may refuse (a size limit) next to a proposer that does not look
+// proposes an empty command, which every replica's FSM aborts on, again at every replay.
+func proposedCommandWellFormed(c *Ctx, rule string) {
+	p := c.P
+	ab := p.MustMethod(pkgConsensus, "RaftNode", "AddBulk")
+	enc := p.MustMethod(pkgConsensus, "command", "encode")
+	rg := p.RegionOf(ab, 2)
+	checked := true
+	for _, ri := range rg.Calls(func(k *ssa.CallCommon) bool { return k.StaticCallee() == enc }) {
+		call, ok := ri.in.(*ssa.Call)
+		if !ok || call.Referrers() == nil || len(*call.Referrers()) == 0 {
+			checked = false
+		}
+	}
+	// errors encode can return: only values that come out of a callee
+	ownErrors := 0
+	var example string
+	for _, rt := range p.ReturnTerms(enc) {
+		e := rt[len(rt)-1]
+		for _, a := range e.Alts() {
+			a = a.Strip()
+			if a.Op == "const" {
+				continue
+			}
+			fromCallee := (a.Op == "call" || a.Op == "extract" || a.Op == "invoke") && !(a.Op == "call" && a.Fn != nil && a.Fn.Pkg != nil && (a.Fn.Pkg.Pkg.Path() == "fmt" || a.Fn.Pkg.Pkg.Path() == "errors"))
+			if a.Op == "extract" && a.Args[0].Op == "call" && a.Args[0].Fn != nil && a.Args[0].Fn.Pkg != nil && (a.Args[0].Fn.Pkg.Pkg.Path() == "fmt" || a.Args[0].Fn.Pkg.Pkg.Path() == "errors") {
+				fromCallee = false
+			}
+			if !fromCallee {
+				ownErrors++
+				example = a.String()
+			}
+		}
+	}
+	ok := checked || ownErrors == 0
+	c.Check(ok, rule, funcName(ab)+":encode-verdict", ab.Pos(), "the proposer tests command.encode's error, or encode has no refusal of its own", "command.encode can refuse a command on its own ("+example+") while RaftNode.AddBulk discards its verdict and proposes cmd.data anyway: an empty entry is committed and every replica's FSM aborts on it, again at every replay")
+}
+
+// ---- goroutines that are waited for signal on every exit --------------------------------------------------
+func waitGroupDoneOnEveryExit(c *Ctx, rule string, pkgs []string) {
+	p := c.P
+	inPkgs := map[*ssa.Package]bool{}
+	for _, pk := range pkgs {
+		if sp := p.SSAPkg[modPkg(pk)]; sp != nil {
+			inPkgs[sp] = true
+		}
+	}
+	isDone := func(in ssa.Instruction) bool {
+		cc := callCommon(in)
+		if cc == nil || cc.StaticCallee() == nil {
+			return false
+		}
+		f := cc.StaticCallee()
+		return f.Name() == "Done" && f.Signature.Recv() != nil && namedIs(f.Signature.Recv().Type(), "sync", "WaitGroup")
+	}
+	n := 0
+	for _, fn := range p.ModFuncs {
+		if !inPkgs[fn.Pkg] || !p.Production(fn) || fn.Parent() == nil {
+			continue
+		}
+		has, deferred := false, false
+		eachInstr(fn, func(in ssa.Instruction) {
+			if isDone(in) {
+				has = true
+				if _, isDefer := in.(*ssa.Defer); isDefer && in.Block() == fn.Blocks[0] {
+					deferred = true
+				}
+			}
+		})
+		if !has {
+			continue
+		}
+		n++
+		ok := deferred
+		if !ok {
+			ok = p.EscapesWithout(fn, func(in ssa.Instruction) bool {
+				_, isDefer := in.(*ssa.Defer)
+				return isDone(in) && !isDefer
+			}, mustOpts{panicIsExit: true}) == nil
+		}
+		c.Check(ok, rule, funcName(fn)+":wg-done", fn.Pos(), "WaitGroup.Done on every exit", "this goroutine can return without calling WaitGroup.Done (an early return on an error path): the Wait of its spawner never returns, the request that started it hangs for ever and leaks its goroutines")
+	}
+	if n == 0 {
+		c.Fail(rule, "wg-done", 0, "no goroutine signalling a WaitGroup found")
+	}
+}
+
+// ---- characters of a token are read only after its length was tested -----------------------------------------
+func tokenCharsGuarded(c *Ctx, rule string) {
+	p := c.P
+	fn := p.MustFunc(pkgHistory, "ParseAuditPath")
+	rg := p.RegionOf(fn, 2)
+	bad := 0
+	rg.Instrs(func(site regionSite, in ssa.Instruction) {
+		// s[i] on a string: go/ssa uses Index (newer) or Lookup (older)
+		var sx ssa.Value
+		switch x := in.(type) {
+		case *ssa.Lookup:
+			sx = x.X
+		case *ssa.Index:
+			sx = x.X
+		}
+		if sx == nil || !isStringType(sx.Type()) {
+			return
+		}
+		t := rg.Term(site, sx)
+		cs := rg.Conds(regionInstr{site, in})
+		guarded := hasCond(cs, func(k Cond) bool {
+			return k.Atom.Has(func(x *Term) bool { return x.Op == "builtin" && x.Name == "len" && x.Args[0].String() == t.String() })
+		})
+		if !guarded {
+			bad++
+			c.Fail(rule, funcName(fn)+":token-char", in.Pos(), "a character of "+t.String()+" is read without a test of its length: a key with an empty token (\"|3\", \"7|\") panics while the answer is being decoded, before any verifier's recover boundary")
+		}
+	})
+	if bad == 0 {
+		c.Ok(rule, funcName(fn)+":token-char", fn.Pos(), "no unguarded character access on key tokens")
+	}
+}
+
+// ---- a single-entry store operation always writes ---------------------------------------------------------------
+func storeLogAlwaysWrites(c *Ctx, rule string) {
+	p := c.P
+	fn := p.MustMethod(pkgConsensus, "raftLog", "StoreLog")
+	isPut := func(in ssa.Instruction) bool {
+		cc := callCommon(in)
+		return cc != nil && cc.StaticCallee() != nil && (cc.StaticCallee().Name() == "PutCF" || cc.StaticCallee().Name() == "Write") && cc.StaticCallee().Pkg != nil && strings.HasSuffix(cc.StaticCallee().Pkg.Pkg.Path(), "/rocksdb")
+	}
+	esc := p.RegionOf(fn, 2).EscapesWithoutDeep(isPut, mustOpts{skipErrEdges: true})
+	pos := fn.Pos()
+	if esc != nil {
+		pos = esc.Pos()
+	}
+	c.Check(esc == nil, rule, funcName(fn)+":always-writes", pos, "every successful StoreLog has written the entry", "StoreLog can report success without writing (a shortcut for an entry it believes it already holds): the entry stored under that index keeps its old type/payload while StoreLogs would have replaced it")
+}
+
+// ---- a verdict is computed from the message -------------------------------------------------------------------------
+func verifyLooksAtTheMessage(c *Ctx, rule string) {
+	p := c.P
+	v := p.MustMethod("crypto/sign", "Ed25519Signer", "Verify")
+	bad := 0
+	n := 0
+	for _, rt := range p.ReturnTerms(v) {
+		n++
+		t := rt[0]
+		for _, a := range t.Alts() {
+			a = a.Strip()
+			ok := a.Op == "call" && a.Fn != nil && a.Fn.Name() == "Verify" && a.Has(func(x *Term) bool { return x.IsParam(v, 1) }) && a.Has(func(x *Term) bool { return x.IsParam(v, 2) })
+			if a.Op == "const" && a.Name == "false" {
+				ok = true
+			}
+			if !ok {
+				bad++
+				c.Fail(rule, funcName(v)+":verdict", v.Pos(), "Verify can answer "+a.String()+" without checking the signature against the message (e.g. from a cache keyed by the signature): a modified snapshot carrying a signature seen before verifies")
+			}
+		}
+	}
+	if bad == 0 && n > 0 {
+		c.Ok(rule, funcName(v)+":verdict", v.Pos(), "every positive verdict is ed25519.Verify(publicKey, message, sig)")
+	}
+}
+
+// ---- peer lists of the topology are touched under its mutex --------------------------------------------------------
+func peerListsUnderTopologyLock(c *Ctx, rule string) {
+	p := c.P
+	sp := p.SSAPkg[modPkg("gossip")]
+	n, bad := 0, 0
+	for _, fn := range p.ModFuncs {
+		if fn.Pkg != sp || !p.Production(fn) || fn.Signature.Recv() == nil || !namedIs(fn.Signature.Recv().Type(), "gossip", "Topology") {
+			continue
+		}
+		fn := fn
+		li := p.Locksets(fn)
+		eachInstr(fn, func(in ssa.Instruction) {
+			cc := callCommon(in)
+			if cc == nil || cc.StaticCallee() == nil || cc.StaticCallee().Signature.Recv() == nil || !namedIs(cc.StaticCallee().Signature.Recv().Type(), "gossip", "PeerList") || len(cc.Args) == 0 {
+				return
+			}
+			recv := p.TermOf(cc.Args[0])
+			// lists that live in the topology's map (looked up or just stored there), not locals of the method
+			if !recv.Has(func(x *Term) bool { return x.Op == "lookup" || x.Op == "field" && x.Args[0].IsParam(fn, 0) }) {
+				return
+			}
+			n++
+			if li.before[in]["gossip.Topology.Mutex"] == 0 {
+				bad++
+				c.Fail(rule, funcName(fn)+":peer-list:"+cc.StaticCallee().Name(), in.Pos(), "a peer list of the topology is used ("+cc.StaticCallee().Name()+") after the topology mutex was released: PeerList has no lock of its own, so join/leave notifications race with routing (lost peers, torn slices)")
+			}
+		})
+	}
+	if n == 0 {
+		c.Fail(rule, "topology:peer-lists", 0, "no use of the topology's peer lists found")
+	} else if bad == 0 {
+		c.Ok(rule, "topology:peer-lists", 0, fmt.Sprintf("%d use(s) of the topology's peer lists, all under its mutex", n))
+	}
+}
+
+// ---- goroutines started in a loop do not share a variable the loop assigns ------------------------------------------
+func loopGoroutinesOwnTheirVariables(c *Ctx, rule string, pkgs []string) {
+	p := c.P
+	inPkgs := map[*ssa.Package]bool{}
+	for _, pk := range pkgs {
+		if sp := p.SSAPkg[modPkg(pk)]; sp != nil {
+			inPkgs[sp] = true
+		}
+	}
+	n, bad := 0, 0
+	for _, fn := range p.ModFuncs {
+		if !inPkgs[fn.Pkg] || !p.Production(fn) {
+			continue
+		}
+		fn := fn
+		eachInstr(fn, func(in ssa.Instruction) {
+			g, ok := in.(*ssa.Go)
+			if !ok || !inCycle(in.Block()) {
+				return
+			}
+			mc, ok := g.Call.Value.(*ssa.MakeClosure)
+			if !ok {
+				return
+			}
+			n++
+			for _, b := range mc.Bindings {
+				al, isAl := b.(*ssa.Alloc)
+				if !isAl || inCycle(al.Block()) {
+					continue // a fresh variable per iteration
+				}
+				// assigned inside the loop?
+				assigned := false
+				if al.Referrers() != nil {
+					for _, r := range *al.Referrers() {
+						if st, isSt := r.(*ssa.Store); isSt && st.Addr == ssa.Value(al) && inCycle(st.Block()) {
+							assigned = true
+						}
+					}
+				}
+				if assigned {
+					bad++
+					c.Fail(rule, funcName(fn)+":loop-capture:"+al.Comment, in.Pos(), "the goroutine started in this loop captures "+al.Comment+", a variable declared outside the loop and assigned in every iteration: goroutines of earlier iterations see the value of a later one (one task runs several times, the others never)")
+				}
+			}
+		})
+	}
+	if bad == 0 {
+		c.Ok(rule, "loop-goroutines", 0, fmt.Sprintf("%d goroutine(s) started in loops, none shares a loop-assigned variable", n))
+	}
+}
+
+// ---- only membership notifications change the topology -------------------------------------------------------------
+func topologyChangedByNotificationsOnly(c *Ctx, rule string) {
+	p := c.P
+	upd := p.MustMethod("gossip", "Topology", "Update")
+	del := p.MustMethod("gossip", "Topology", "Delete")
+	n := 0
+	for _, fn := range p.ModFuncs {
+		if !p.Production(fn) {
+			continue
+		}
+		fn := fn
+		for _, call := range callsIn(fn, func(k *ssa.CallCommon) bool { return k.StaticCallee() == upd || k.StaticCallee() == del }) {
+			n++
+			root := outermost(fn)
+			ok := root.Signature.Recv() != nil && strings.HasPrefix(root.Name(), "Notify")
+			c.Check(ok, rule, funcName(fn)+":topology-writer", call.Pos(), "the topology is changed from a membership notification", funcName(fn)+" changes the topology outside a membership notification (NotifyJoin/NotifyLeave/NotifyUpdate): memberlist announces a peer again only on a dead→alive transition, so a peer removed for another reason (a failed send) is never routed to again while it is still a live member")
+		}
+	}
+	if n == 0 {
+		c.Fail(rule, "topology-writers", upd.Pos(), "nothing updates the topology")
+	}
+}
+
+// ---- the duplicate filter identifies a batch by its whole content -----------------------------------------------------
+func dedupKeyCoversTheBatch(c *Ctx, rule string) {
+	p := c.P
+	wp := p.MustMethod("gossip", "BatchProcessor", "wasProcessed")
+	okEnc := false
+	eachInstr(wp, func(in ssa.Instruction) {
+		cc := callCommon(in)
+		if cc == nil || cc.StaticCallee() == nil || cc.StaticCallee().Name() != "Encode" || len(cc.Args) < 2 {
+			return
+		}
+		a := p.TermOf(cc.Args[1])
+		if a.IsField("Snapshots", isParam(wp, 1)) || a.IsParam(wp, 1) {
+			okEnc = true
+		}
+	})
+	c.Check(okEnc, rule, funcName(wp)+":key-covers-batch", wp.Pos(), "the looked-up digest is computed from the encoding of all snapshots of the batch", "the digest that identifies a batch is no longer computed from the encoding of its snapshots: a copy altered in a field the key does not cover (digests, version — nobody verifies signatures on this path) is dropped as already processed and never audited")
+}
+
+// ---- the publisher posts a batch once ------------------------------------------------------------------------------------
+func storePostsOnce(c *Ctx, rule string) {
+	p := c.P
+	pb := p.MustMethod("gossip", "RestSnapshotStore", "PutBatch")
+	posts := callsIn(pb, func(k *ssa.CallCommon) bool { return k.StaticCallee() != nil && k.StaticCallee().Name() == "Post" })
+	ok := len(posts) == 1 && !inCycle(posts[0].Block())
+	c.Check(ok, rule, funcName(pb)+":posts-once", pb.Pos(), "one POST per batch", fmt.Sprintf("PutBatch issues its POST %d time(s) or in a loop: a client-side error does not mean the store did not take the batch, so retrying on another endpoint stores the same signed snapshots twice", len(posts)))
+}
+
+// ---- an endpoint that fails is dead, whatever its history -----------------------------------------------------------------
+func markAsDeadAlwaysMarks(c *Ctx, rule string) {
+	p := c.P
+	md := p.MustMethod("client", "endpoint", "MarkAsDead")
+	isSet := func(in ssa.Instruction) bool {
+		st, ok := in.(*ssa.Store)
+		if !ok {
+			return false
+		}
+		fa, ok := st.Addr.(*ssa.FieldAddr)
+		if !ok || structFieldName(deref(fa.X.Type()), fa.Field) != "dead" {
+			return false
+		}
+		k, isC := st.Val.(*ssa.Const)
+		return isC && k.Value != nil && k.Value.String() == "true"
+	}
+	esc := p.EscapesWithout(md, isSet, mustOpts{})
+	c.Check(esc == nil, rule, funcName(md)+":always", md.Pos(), "MarkAsDead sets the dead flag on every path", "MarkAsDead can return without setting the dead flag (only under a condition on the endpoint's history): an endpoint that failed, was revived and fails again is handed out for ever and the request loops never end")
+}
+
+// ---- the retrier stops when no retry remains --------------------------------------------------------------------------------
+func retrierBound(c *Ctx, rule string) {
+	p := c.P
+	fn := p.MustMethod("client", "BackoffRequestRetrier", "DoReq")
+	n := 0
+	for _, b := range fn.Blocks {
+		ifi := blockIf(b)
+		if ifi == nil || !inCycle(b) {
+			continue
+		}
+		cd := p.condOf(ifi.Cond, true)
+		a := cd.Atom
+		if a.Op != "LT" && a.Op != "EQ" {
+			continue
+		}
+		isRemain := func(t *Term) bool {
+			return t.Op == "binop" && t.Name == "-" && t.Args[0].IsField("maxRetries", nil)
+		}
+		isZero := func(t *Term) bool { return t.Op == "const" && t.Name == "0" }
+		var truthAtZero bool
+		switch {
+		case a.Op == "LT" && isZero(a.Args[0]) && isRemain(a.Args[1]): // 0 < remain
+			truthAtZero = false
+		case a.Op == "LT" && isRemain(a.Args[0]) && isZero(a.Args[1]): // remain < 0
+			truthAtZero = false
+		case a.Op == "EQ" && (isRemain(a.Args[0]) && isZero(a.Args[1]) || isRemain(a.Args[1]) && isZero(a.Args[0])):
+			truthAtZero = true
+		default:
+			continue
+		}
+		n++
+		// which edge is taken when remain == 0 ? (cd describes the true edge with polarity Pol)
+		taken := 1
+		if truthAtZero == cd.Pol {
+			taken = 0
+		}
+		leaves := !inCycle(b.Succs[taken]) || !b.Succs[taken].Dominates(b) && !reachesBlock(b.Succs[taken], b)
+		c.Check(leaves, rule, funcName(fn)+":bound", ifi.Pos(), "with no retry remaining (maxRetries - i == 0) the loop is left", "when maxRetries - i is exactly 0 the retry loop goes round once more: the retrier sends maxRetries+2 requests (a non-idempotent POST configured with no retries goes out twice)")
+	}
+	if n == 0 {
+		c.Fail(rule, funcName(fn)+":bound", fn.Pos(), "the retry loop no longer compares the remaining retries (maxRetries - i) with zero")
+	}
+}
+
+func reachesBlock(from, to *ssa.BasicBlock) bool {
+	seen := map[*ssa.BasicBlock]bool{}
+	work := []*ssa.BasicBlock{from}
+	for len(work) > 0 {
+		b := work[len(work)-1]
+		work = work[:len(work)-1]
+		if b == to {
+			return true
+		}
+		if seen[b] {
+			continue
+		}
+		seen[b] = true
+		work = append(work, b.Succs...)
+	}
+	return false
+}
+
+// ---- the rebuilt endpoint list does not alias the list it is built from ---------------------------------------------------------
+func updateBuildsAFreshList(c *Ctx, rule string) {
+	p := c.P
+	upd := p.MustMethod("client", "topology", "Update")
+	bad := 0
+	eachInstr(upd, func(in ssa.Instruction) {
+		sl, ok := in.(*ssa.Slice)
+		if !ok {
+			return
+		}
+		if p.TermOf(sl.X).IsField("endpoints", isParam(upd, 0)) {
+			bad++
+			c.Fail(rule, funcName(upd)+":fresh-list", in.Pos(), "the new endpoint list is built in the backing array of the old one (a re-slice of t.endpoints) while the old list is still being searched for endpoints to take over: entries overwritten before they are looked up are re-created and lose their dead mark")
+		}
+	})
+	if bad == 0 {
+		c.Ok(rule, funcName(upd)+":fresh-list", upd.Pos(), "the new list does not alias the old one")
+	}
+}
+
+// ---- the hyper value is padded to the hasher's length ----------------------------------------------------------------
+//
+// The length the version is padded to when a proof is rebuilt comes from the client's own hasher,
+// never from the answer: Uint64AsPaddedBytes slices with it, and an answer-controlled length of 2..7
+// is a negative bound — a panic while decoding, outside every recover boundary.
+func paddingLengthFromHasher(c *Ctx, rule string) {
+	p := c.P
+	fn := p.MustFunc("protocol", "ToBalloonProof")
+	n := 0
+	eachInstr(fn, func(in ssa.Instruction) {
+		cc := callCommon(in)
+		if cc == nil || cc.StaticCallee() == nil || cc.StaticCallee().Name() != "Uint64AsPaddedBytes" || len(cc.Args) != 2 {
+			return
+		}
+		n++
+		l := p.TermOf(cc.Args[1])
+		fromAnswer := l.Has(func(x *Term) bool { return x.Op == "field" && x.Args[0].IsParam(fn, 0) })
+		fromHasher := l.Has(func(x *Term) bool { return x.Op == "invoke" && x.Name == "Len" })
+		c.Check(fromHasher && !fromAnswer, rule, funcName(fn)+":padding-length", in.Pos(), "padding length = hasher.Len()", "the version is padded to "+l.String()+", a length taken from the answer: a short KeyDigest makes Uint64AsPaddedBytes slice with a negative bound and the client panics while decoding the answer")
+	})
+	if n == 0 {
+		c.Fail(rule, funcName(fn)+":padding-length", fn.Pos(), "ToBalloonProof no longer pads the version with Uint64AsPaddedBytes")
+	}
+}
+
+// ---- a reader hands out objects of its own ---------------------------------------------------------------------------
+//
+// Consumers keep what Read gave them while they call Read again with the same buffer
+// (RebuildCache does). Every pair put into the buffer must therefore be a new object with its own
+// key/value; recycling the pairs found in the buffer rewrites what the previous call handed out.
+func readerHandsOutFreshPairs(c *Ctx, rule string) {
+	p := c.P
+	n := 0
+	for _, impl := range []struct{ pkg, typ string }{{"storage/rocks", "RocksDBKVPairReader"}, {"storage/bplus", "BPlusKVPairReader"}} {
+		rd := p.Method(impl.pkg, impl.typ, "Read")
+		if rd == nil {
+			continue
+		}
+		n++
+		bad := 0
+		fns := append([]*ssa.Function{rd}, Anons(rd)...)
+		for _, fn := range fns {
+			fn := fn
+			eachInstr(fn, func(in ssa.Instruction) {
+				st, ok := in.(*ssa.Store)
+				if !ok {
+					return
+				}
+				switch a := st.Addr.(type) {
+				case *ssa.IndexAddr:
+					// buffer[i] = X : X must be allocated here, per element
+					if !p.TermOf(a.X).IsParam(rd, 1) {
+						return
+					}
+					al, isAl := st.Val.(*ssa.Alloc)
+					if !isAl || al.Parent() != fn {
+						bad++
+						c.Fail(rule, impl.typ+".Read:fresh-pairs", in.Pos(), "the pair stored into the caller's buffer is "+p.TermOf(st.Val).String()+", not an object allocated for this entry")
+					}
+				case *ssa.FieldAddr:
+					// writing into a pair that was read out of the buffer
+					base := p.TermOf(a.X)
+					if base.HasLocal(func(t *Term) bool { return t.Op == "index" && len(t.Args) > 0 && t.Args[0].IsParam(rd, 1) }) {
+						bad++
+						c.Fail(rule, impl.typ+".Read:fresh-pairs", in.Pos(), "Read writes into a pair it found in the caller's buffer ("+base.String()+"): the pairs handed out by the previous Read are rewritten in place while the consumer still holds them")
+					}
+				}
+			})
+		}
+		if bad == 0 {
+			c.Ok(rule, impl.typ+".Read:fresh-pairs", rd.Pos(), "every pair handed out is a new object")
+		}
+	}
+	if n == 0 {
+		c.Fail(rule, "readers:fresh-pairs", 0, "no KVPairReader implementation found")
+	}
+}
